@@ -89,13 +89,15 @@ def check_combo(ctx, case, kind, gs, rng, max_levels, n_cli, index):
     for j, k in enumerate(picked):
         rec.case()
         ref = k * gs
-        via_cli = db is not None and j < n_cli
+        via_cli = db is not None and (j < n_cli or k == 0)
         curves_common.clear_curve(connection, kind)
         if via_cli:
             disk = sqlite3.connect(db)
             curves_common.clear_curve(disk, kind)
             disk.close()
             text = '{:.10g}'.format(ref)
+            if k == 0 and rng.random() < 0.5:
+                text = rng.choice(['0', '-0.0', '0e0', '0.0'])
             # argparse would take "-12.5" for an option: pass as -r=-12.5
             status, exc = data.cli([kind, db, '--reference-zeta-mm={}'.format(text)])
             if exc is None and status != 0:
